@@ -194,6 +194,11 @@ def main():
                                "solver_report": c.get("desc"), "observed": rp.get("outcome"), "traceback": rp.get("traceback"),
                                "how": "cd /verif && ./vcheck replay " + path}, f, indent=1)
                 confirmed.append(path)
+        if not confirmed and any((c.get("replay") or {}).get("harness_fault") for c in r["candidates"]):
+            r["verdict"] = "ERROR"
+            r["detail"] = "harness fault on replay (the harness is out of step with the tree): %s" % (
+                [(c.get("replay") or {}).get("outcome") for c in r["candidates"] if (c.get("replay") or {}).get("harness_fault")][:2],)
+            continue
         if confirmed:
             r["verdict"] = "VIOLATION"
             r["replay_files"] = confirmed
